@@ -184,6 +184,32 @@ static void do_op(const char *op, int a, int b, const char *text)
         double s = 0; for (int i = 0; i < len; i++) s += v[i];
         res_arr(len, (long)(s * 2)); free(v);
     }
+    else if (!strcmp(op, "arr_pat")) {
+        int len = 0;
+        sim_phase(1);
+        SIM_SHROUD_memory_destructor(&caps[b]);
+        int *p = SIM_arr_new_pat_bufferify(&d, a, &len);
+        caps[b] = d.cxx; sim_phase(0);
+        long s = 0; for (int i = 0; i < len; i++) s += p[i];
+        res_arr(len, s);
+    }
+    else if (!strcmp(op, "arr_sum")) {
+        int *v = (int *)exact(sizeof(int) * a); for (int i = 0; i < a; i++) v[i] = 3 * (i + 1);
+        sim_phase(1); int r = SIM_arr_sum(v, a); sim_phase(0); res_int(r); free(v);
+    }
+    else if (!strcmp(op, "char_grow")) {
+        char *buf = fbuf(text, a);
+        sim_phase(1); SIM_char_grow_bufferify(buf, (int)len_trim(buf, a), a); sim_phase(0); res_str(buf, a); free(buf);
+    }
+    else if (!strcmp(op, "ref_item")) { sim_phase(1); SIM_ref_item(&h[a]); sim_phase(0); res_none(); }
+    else if (!strcmp(op, "vec_ret_d")) {
+        sim_phase(1); SIM_vec_ret_d_bufferify(a, &d);
+        size_t n = d.size;
+        double *v = (double *)exact(sizeof(double) * n);
+        SIM_ShroudCopyArray(&d, v, n); sim_phase(0);
+        double s = 0; for (size_t i = 0; i < n; i++) s += v[i];
+        res_arr((long)n, (long)(s * 4)); free(v);
+    }
     else if (!strcmp(op, "cap_delete")) { sim_phase(1); SIM_SHROUD_memory_destructor(&caps[a]); sim_phase(0); res_none(); }
     else if (!strcmp(op, "cap_scope")) {
         int len = 0;
